@@ -513,7 +513,8 @@ class ExprGen:
             return f"ext({s})"
         return o
 
-    OPS = ["leaf", "not", "neg", "add", "sub", "lt", "eq", "chain", "and", "or", "and3", "or3", "call", "andor", "orand"]
+    OPS = ["leaf", "not", "neg", "add", "sub", "lt", "eq", "chain", "and", "or", "and3", "or3", "call", "andor", "orand",
+           "and4", "or4", "and5", "or5", "mixed4"]  # chains of four / five operands: leaves only (distinct external calls)
 
     def expr(self, d, top=False):
         ops = (self.OPS if top else self.inner_ops) if d > 0 else ["leaf"]
@@ -547,6 +548,12 @@ class ExprGen:
             return f"({sub()} and {sub()} and {sub()})"
         if op == "or3":
             return f"({sub()} or {sub()} or {sub()})"
+        if op in ("and4", "or4", "and5", "or5"):
+            w = " and " if op.startswith("and") else " or "
+            return "(" + w.join(self.leaf(simple=True) for _ in range(int(op[-1]))) + ")"
+        if op == "mixed4":
+            a, b, c_, d_ = (self.leaf(simple=True) for _ in range(4))
+            return f"({a} and {b} or {c_} and {d_})"
         if op == "andor":
             return f"({sub()} and ({sub()} or {sub()}))"
         if op == "orand":
